@@ -43,7 +43,7 @@ claim("C08", "proof",
       "abstract interpretation of typed HIR to exact canonical forms; impl table enumeration with floor 320",
       "DESIGN.md 5.C08")
 claim("C09", "proof",
-      "Static proof over the reals: powi/powf in every decision-tree arm (n=0, 1, 2 / |n-2|<eps, general symbolic n, negative n) equal the formal derivatives of x^n in all parts; powd (every path) equals the lifting of exp(n ln x) in base and exponent; recip/sqrt/cbrt agree with the power forms; the power items of nalgebra's ComplexField impls (powi, powf and powc with a DUAL exponent, sqrt, cbrt, recip) equal the same liftings; sound interval analysis shows every i32 sub-expression of powi stays in range for |n| <= 2^30 (violations only with an exact witness); float instances forward to std. The Python classes' powi/powf/powd/sqrt/cbrt/recip forward to the same Rust items. Float overflow/underflow of x^(n-3) is NOT decided.",
+      "Static proof over the reals: powi/powf in every decision-tree arm (n=0, 1, 2 / |n-2|<eps, general symbolic n, negative n) equal the formal derivatives of x^n in all parts; powd (every path) equals the lifting of exp(n ln x) in base and exponent; recip/sqrt/cbrt agree with the power forms; the power items of nalgebra's ComplexField impls (powi, powf and powc with a DUAL exponent, sqrt, cbrt, recip) equal the same liftings; sound interval analysis shows every i32 sub-expression of powi stays in range for |n| <= 2^30 (violations only with an exact witness); float instances forward to std. The Python classes' powi/powf/powd/sqrt/cbrt/recip forward to the same Rust items. Float overflow/underflow of x^(n-3) is NOT decided. The operator / compound-assignment / iterator / Inv forms of all 8 types and the derivative container's operations, of which the power items are compositions, are the truncated-algebra operations on every path (rule sets of C08/C07 included).",
       TB,
       "abstract interpretation with symbolic exponent + integer interval analysis on typed HIR",
       "DESIGN.md 5.C09")
@@ -59,12 +59,12 @@ claim("C04", "proof",
       "canonical-form comparison between sibling implementations + impl/alias table rules",
       "DESIGN.md 5.C04")
 claim("C06", "proof",
-      "Sound dependency analysis (no cancellation, data + control dependence, all decision-tree paths) over 864 operation bodies: the real part of every result and every guard depends on operand real parts and scalar parameters only; representation independence of the vector types in an uninterpreted-term domain; comparison traits and predicates decide like the float predicate on the real part (checked semantically on sample values); min/max/clamp/copysign agree with the reference selection on all weak orderings and return operands wholesale; branch agreement: with guards decided at sample real parts on both sides of every switch, the real part of each of the 25 unary interface methods is the expression the plain-float instance evaluates on its own path; 58 plain-float items forward to the same-named std method. Conversions between float widths map the real part to the converted real part (rule set of C13). The 'few ulps' clause is NOT decided.",
+      "Sound dependency analysis (no cancellation, data + control dependence, all decision-tree paths) over 864 operation bodies: the real part of every result and every guard depends on operand real parts and scalar parameters only; representation independence of the vector types in an uninterpreted-term domain; comparison traits and predicates decide like the float predicate on the real part (checked semantically on sample values); min/max/clamp/copysign agree with the reference selection on all weak orderings and return operands wholesale; branch agreement: with guards decided at sample real parts on both sides of every switch, the real part of each of the 25 unary interface methods is the expression the plain-float instance evaluates on its own path; 58 plain-float items forward to the same-named std method. Conversions between float widths map the real part to the converted real part (rule set of C13). The 'few ulps' clause is NOT decided. Sign predicates are also evaluated at +0.0 and -0.0 (they are sign-bit tests); clamp returns self unless strictly outside the bounds (exact tie semantics of f64::clamp).",
       "trusted: rustc's type checker and name resolution, the exporter, the interpreter skeleton; assumes deterministic float operations; NaN orderings excluded",
       "abstract interpretation with a dependency-set domain over typed HIR + ordering-lattice enumeration",
       "DESIGN.md 5.C06")
 claim("C11", "other",
-      "Static rule set: 60 RealField constants map to the FloatConst constant of the same mathematical name (table from simba's f64 impl) with zero derivative parts; 156 ComplexField forwarding items evaluate to the canonical form of the generic dual operation they stand for (log with dual base, powf/powc as powd, hypot, scale/unscale, abs-like on sign arms); argument/try_sqrt/copysign/min/max/clamp match simba's f64 reference on every sign case / weak ordering and return operands wholesale; SimdValue lane operations are part-wise with the same lane index (scalar types, vector types in all presence cases, and the container). abs-like items are decided by the sign BIT at a zero real part (|+0.0| is the operand, |-0.0| its negation, as f64::abs). Numeric agreement of forwarded methods is C01.",
+      "Static rule set: 60 RealField constants map to the FloatConst constant of the same mathematical name (table from simba's f64 impl) with zero derivative parts; 156 ComplexField forwarding items evaluate to the canonical form of the generic dual operation they stand for (log with dual base, powf/powc as powd, hypot, scale/unscale, abs-like on sign arms); argument/try_sqrt/copysign/min/max/clamp match simba's f64 reference on every sign case / weak ordering and return operands wholesale; SimdValue lane operations are part-wise with the same lane index (scalar types, vector types in all presence cases, and the container). abs-like items are decided by the sign BIT at a zero real part (|+0.0| is the operand, |-0.0| its negation, as f64::abs). Numeric agreement of forwarded methods is C01. The operator / compound-assignment / iterator forms of all 8 types and the derivative container's operations are included (rule sets of C08/C07); sign predicates at signed zeros; copysign takes the sign bit whatever projection of sign.re is tested; clamp has the exact tie semantics of f64::clamp.",
       TB + "; name tables of DESIGN.md A.3/A.5 (cross-checked against simba 0.9.1)",
       "canonical-form evaluation of every trait item + reference-semantics comparison on the ordering lattice",
       "DESIGN.md 5.C11")
@@ -75,7 +75,7 @@ claim("C05", "other",
       "abstract interpretation of typed HIR with an opaque closure + compile-fail witness",
       "DESIGN.md 5.C05")
 claim("C13", "other",
-      "Static rules: to_superset / from_superset_unchecked convert every part exactly once with the matching element conversion and preserve absence; sibling coherence: for every presence case and every assignment of per-part membership, from_superset(e).is_some() == is_in_subset(e) (Derivative, Dual, DualVec, Dual2, Dual2Vec), and a present derivative of dimension 0 is a member; lifting a float gives a constant, extraction the real part; the two unsafe element-wise loop nests match the bounded fully-initialising template (ranges are exactly 0..nrows/0..ncols of the source, row/column variables in their own slots of the unchecked read and write, one unconditional write per element, assume_init only after the nest); the remaining unsafe code is enumerated (trait methods forwarding to the same-named unsafe method).",
+      "Static rules: to_superset / from_superset_unchecked convert every part exactly once with the matching element conversion and preserve absence; sibling coherence: for every presence case and every assignment of per-part membership, from_superset(e).is_some() == is_in_subset(e) (Derivative, Dual, DualVec, Dual2, Dual2Vec), and a present derivative of dimension 0 is a member; lifting a float gives a constant, extraction the real part; the two unsafe element-wise loop nests match the bounded fully-initialising template (ranges are exactly 0..nrows/0..ncols of the source, row/column variables in their own slots of the unchecked read and write, one unconditional write per element, assume_init only after the nest); the remaining unsafe code is enumerated (trait methods forwarding to the same-named unsafe method). Container conversions are explored on every path: a conversion that branches on element values must be the element-wise map on each branch.",
       "trusted: rustc type checker and name resolution, the exporter, the interpreter; element conversions of the inner type are coherent (induction); nalgebra's uninit/get_unchecked contracts",
       "Option-semantics abstract interpretation + contradiction rule between sibling methods + template-with-slots rule for unsafe loops",
       "DESIGN.md 5.C13")
@@ -101,7 +101,7 @@ claim("C10", "other",
       "abstract interpretation with a finiteness/sign lattice (+ exponent intervals) over typed HIR",
       "DESIGN.md 5.C10")
 claim("C12", "other",
-      "NARROW claim (linalg configuration). Guard (decided on the interpreted paths of LU::new): some path reports an error; every path that divides by the pivot has excluded a zero pivot magnitude; the tested magnitude is |a[m,i]| for the row m searched over the remaining rows i..n and that element is the pivot divided by (m = i or rows exchanged); LU values can only be produced by LU::new; branch conditions use real parts, counters, sizes or the scalar's own comparison items. Formula level (element-wise abstract interpretation of the loop nests and iterator pipelines with symbolic indices, store-to-load forwarding, composition of per-element effects with canonical sums, arrays named by the role they are returned in): LU::new is Doolittle elimination with whole-row partial pivoting statement by statement, on every path row exchange / permutation exchange / parity counter move together; solve and inverse are forward/back substitution on the permuted right-hand side (inverse: permuted unit vectors); determinant is the product of the pivots negated exactly for odd parity; the Jacobi sweep stops early only on a quantity over the whole strict upper triangle, rotates only on paths excluding a_pq = 0, drops an element without rotation only after testing both diagonal elements, uses the textbook t, c, s, tau and rotation formulas on all four index ranges, updates diagonal/accumulator, annihilates a_pq, and the final selection sort is ascending and exchanges eigenvector columns with their eigenvalues; the field-trait methods nalgebra's decompositions call and the element operations (+ - * /, compound assignment, also with absent derivative parts) are the verified dual operations. norm(x) is the square root of the sum of squares; the pivot candidate and the quantity the sweeps stop on are magnitudes; loop ranges are those of the schemes. NOT decided (declared out of reach): A x = b, A A^-1 = I, A V = V diag(lambda), Jacobi's formula, Hellmann-Feynman, convergence, tolerances, nalgebra's own decompositions.",
+      "NARROW claim (linalg configuration). Guard (decided on the interpreted paths of LU::new): some path reports an error; every path that divides by the pivot has excluded a zero pivot magnitude; the tested magnitude is |a[m,i]| for the row m searched over the remaining rows i..n and that element is the pivot divided by (m = i or rows exchanged); LU values can only be produced by LU::new; branch conditions use real parts, counters, sizes or the scalar's own comparison items. Formula level (element-wise abstract interpretation of the loop nests and iterator pipelines with symbolic indices, store-to-load forwarding, composition of per-element effects with canonical sums, arrays named by the role they are returned in): LU::new is Doolittle elimination with whole-row partial pivoting statement by statement, on every path row exchange / permutation exchange / parity counter move together; solve and inverse are forward/back substitution on the permuted right-hand side (inverse: permuted unit vectors); determinant is the product of the pivots negated exactly for odd parity; the Jacobi sweep stops early only on a quantity over the whole strict upper triangle, rotates only on paths excluding a_pq = 0, drops an element without rotation only after testing both diagonal elements, uses the textbook t, c, s, tau and rotation formulas on all four index ranges, updates diagonal/accumulator, annihilates a_pq, and the final selection sort is ascending and exchanges eigenvector columns with their eigenvalues; the field-trait methods nalgebra's decompositions call and the element operations (+ - * /, compound assignment, also with absent derivative parts) are the verified dual operations. norm(x) is the square root of the sum of squares; the pivot candidate and the quantity the sweeps stop on are magnitudes; loop ranges are those of the schemes. NOT decided (declared out of reach): A x = b, A A^-1 = I, A V = V diag(lambda), Jacobi's formula, Hellmann-Feynman, convergence, tolerances, nalgebra's own decompositions. The forms of every trait linalg.rs calls on its entries (resolved callees, e.g. Sum through Iterator::sum) are included.",
       "trusted: rustc type checker and name resolution, the exporter, structural walkers; no loop invariants of the numerical algorithms are established",
       "tree-dominance and pairing rules on structured typed HIR",
       "DESIGN.md 5.C12")
